@@ -178,8 +178,10 @@ def lift(obj):
         return VTuple([lift(x) for x in obj])
     if isinstance(obj, list):
         return VList(t, [lift(x) for x in list.__iter__(obj)])
-    if t is dict:
-        return VDict(t, [[lift(k), lift(v)] for k, v in obj.items()])
+    if isinstance(obj, dict) and not hasattr(obj, "__dict__") or t is dict:
+        return VDict(t, [[lift(k), lift(v)] for k, v in dict.items(obj)])
+    if isinstance(obj, dict) and t.__module__.startswith("celpy.celtypes"):
+        return VDict(t, [[lift(k), lift(v)] for k, v in dict.items(obj)], dict(getattr(obj, "__dict__", {})))
     if t in (set, frozenset):
         return VSet(t, [lift(x) for x in obj])
     return VNative(obj)
